@@ -74,6 +74,25 @@ PINNED_REGRESSIONS = [
       ":: Start\n* [J] -> @join\n# c\n   inner\n@join\nafter",
       ":: Start\n* [J] -> @join\n   inner\n# c\n@join\nafter",
       ":: Start\n* [J] -> @join\n   inner\n      # c\n@join\nafter"]),
+    ("style=legacy,construct=if,position=join-block",
+     "F17n: an indented legacy block header after a `-> @join` choice becomes text of the block while the @ form ends the block",
+     ":: S\n* [R] -> @join\n    @if x:\n    a\n    @endif\n@join\nafter",
+     [":: S\n* [R] -> @join\n    <<if x>>\n    a\n    <<endif>>\n@join\nafter"]),
+    ("style=legacy,construct=for,position=join-block",
+     "F17n: an indented legacy loop header inside the block of a `-> @join` choice",
+     ":: S\n* [R] -> @join\n    first\n    @for i in xs:\n    {i}\n    @endfor\n@join\nafter\n+ [Go] -> S",
+     [":: S\n* [R] -> @join\n    first\n    <<for i in xs>>\n    {i}\n    <<endfor>>\n@join\nafter\n+ [Go] -> S"]),
+    ("style=legacy,construct=py,position=join-block",
+     "F17n: a legacy Python block opener inside the block of a `-> @join` choice",
+     ":: S\n* [R] -> @join\n    @py:\n    x = 1\n    @endpy\n@join\nafter",
+     [":: S\n* [R] -> @join\n    <<py\n    x = 1\n    >>\n@join\nafter"]),
+]
+
+# F17o (fixed in /repo 2cb369b): an unclosed legacy Python block is rejected like an unclosed @py: block
+PINNED_BOTH_REJECTED = [
+    ("style=legacy,construct=py,unclosed", ":: S\n@py:\nx = 1\n:: T\nt", ":: S\n<<py\nx = 1\n:: T\nt"),
+    ("style=legacy,construct=py,unclosed-in-for", ":: S\n@for i in xs:\n@py:\nx = 1\n@endfor\nt",
+     ":: S\n<<for i in xs>>\n<<py\nx = 1\n<<endfor>>\nt"),
 ]
 
 
@@ -640,6 +659,14 @@ def run(tier: str, seed: int) -> int:
             chk.report(sig, f"{what}: {oc}  [variant source: {vt!r}]",
                        {"kind": "pinned-regression", "outcome": oc, "baseline_text": bt, "variant_text": vt,
                         "variants_failing": len(bad), "variants": len(vts)})
+    for sig, at_src, legacy_src in PINNED_BOTH_REJECTED:
+        a, l = compile_src(at_src), compile_src(legacy_src)
+        total_variants += 1
+        pinned_notes[sig] = {"at": a[0], "legacy": l[0]}
+        if a[0] == "ok" or l[0] == "ok" or a[1] != l[1]:
+            chk.report(sig, f"F17o: the @ form of an unclosed Python block gives {a[:2]}, the legacy form gives {l[:2]} "
+                       "(both must be rejected with the same kind of diagnostic)",
+                       {"kind": "pinned-regression", "baseline_text": at_src, "variant_text": legacy_src})
     chk.notes["pinned_regression_witnesses"] = pinned_notes
 
     # one report per signature, with a shrunk witness; the signature reported is that of the shrunk witness
